@@ -36,6 +36,12 @@ CHECKS = {
          '4 000 (quick) / 64 000 (thorough) generated cells (encoding x BOM x XML-declaration spelling x meta spelling x default_encoding x bytes/file class) with generated bodies encodable in the cell\'s encoding; for every judged cell the rendering must equal that of the decoded string, report the decided encoding and content type, contain no U+FEFF and show the XML/HTML mode effects (implicit booleans, newline rewriting) observed on the rendering itself.',
          'Trusted: Python codecs; the 25-line sniffer written from the statement; cells whose bytes do not determine the encoding are counted, not judged.',
          'DESIGN.md §3 C17'),
+ 'C11': ('invariant-hooks+planted-faults',
+         'runtime monitors M-err (every TemplateError: source[offset:offset+len(token)] == token, line/column) and M-tokalg (wrappers on the real Token methods and parser.groups/groupdict) under a planted-fault workload whose serialiser knows the exact offending substring',
+         'exploration',
+         '12 800 (quick) / 192 000 (thorough) planted faults: an invalid expression at 31 kinds of site (every statement argument, first/middle/last part of define and attributes lists incl. after ;; and entities, ${} in text, attributes, comments, CDATA, string:, after pipes and prefixes, multi-line tags, data attributes) and 23 kinds of language error, in randomised surroundings (newlines, tabs, non-ASCII, comments, elements before). Required: a TemplateError subclass, token text and offset exactly the planted substring (inside the offending construct for language errors), line/column derived from the offset; the un-planted variant of every case must compile. ~700 000 Token-algebra evaluations per quick run.',
+         'Trusted: the site catalogue and its serialiser offsets; for language errors "offending substring" is read as "an aligned token inside the offending attribute or tag".',
+         'DESIGN.md §3 C11'),
 }
 NOT_YET = {}
 
